@@ -42,6 +42,7 @@ pub struct RunResult {
 	pub fault_fired: Vec<(u32, Lid, Op, Tid)>,
 	/// which collections of the world the checked constructor rejected
 	pub rejected: Vec<usize>,
+	pub skipped_colls: Vec<usize>,
 	pub group_of: Vec<u32>,
 	pub final_table_free: bool,
 	/// raw operations counted while the fault plan was armed
@@ -110,7 +111,8 @@ fn collect(env: &Arc<Env>, hung: bool) -> RunResult {
 		}
 		r.waited = g.trace.iter().any(|e| e.out == Outcome::OkWaited);
 	}
-	r.rejected = env.world.colls.iter().enumerate().filter(|(_, c)| c.target.is_none()).map(|(i, _)| i).collect();
+	r.rejected = env.world.colls.iter().enumerate().filter(|(_, c)| c.status == BuildStatus::Rejected).map(|(i, _)| i).collect();
+	r.skipped_colls = env.world.colls.iter().enumerate().filter(|(_, c)| c.status == BuildStatus::Skipped).map(|(i, _)| i).collect();
 	if hung {
 		r.inconclusive = Some("watchdog: a logical thread did not finish".into());
 	}
